@@ -286,6 +286,8 @@ def run(rep):
     rep.extra['theory_selfcheck_cases'] = theory.selfcheck()
     it = new_interp()
     pv = Prover(rep, it, 'C01')
+    from . import c01_extra, c01_eval
+    c01_eval.add_c01(rep, pv, it)          # started first: their VCs are generated in child processes meanwhile
     # A. operators.py on Boolean arguments
     for t in S.GATE_TYPES:
         if t == 'INPUT':
@@ -306,15 +308,14 @@ def run(rep):
                                          qualname='GateType.operator', label=f'gate.{t}.operator/fold-all-arities'))
     # C. foreign tables
     table_obligations(rep, pv, it)
-    from . import c01_extra, c01_eval
     c01_extra.add(rep, pv, it)
-    c01_eval.add_c01(rep, pv, it)
     # canary: gt_ must not be provable equal to lt_
     p, q = z3.Bools('p q')
     canary(rep, pv, 'C01/canary/gt-is-lt', [], theory.OPz('GT', [p, q]) == theory.OPz('LT', [p, q]))
     refuted = pv.discharge(env.NPROC)
     finish_refuted(rep, pv, refuted)
     bounded_entry_points(rep, quick)
-    rep.assume('top_sort contract (C20) is assumed by the evaluate_full_circuit proof')
+    rep.assume('evaluate_full_circuit uses the contract of top_sort(inverse=True) (each gate once, operands first), which is what C20 proves (order + completeness step + rule R2)')
+    rep.assume('evaluate_circuit: partial correctness; dict iteration enumerates each key exactly once; W5 used in count form (view link)')
     rep.extra['explanation'] = ('Obligations are generated by symbolic execution of the current source of operators.py, gate.py and the '
                                 'foreign table modules and discharged by z3/cvc5 for all Boolean arguments and (fold induction) all arities.')
